@@ -22,7 +22,7 @@ EXTRACT = ["C14"]
 BINS = ["c14"]
 NEEDS_CICADA = True
 ALLOWED_AXIOMS = []
-PINNED = ["C14_interp", "C14_interp_inv", "C14_cond_list", "C14_parse_full", "C14_parse_partial", "C14_parse_partial_from", "C14_parse_indented", "C14_parse_indented_from", "C14_parse_indented_extends", "C14_trim_cmd", "C14_anchored", "C14_unbalanced_diagnosed",
+PINNED = ["C14_interp", "C14_interp_inv", "C14_cond_list", "C14_parse_full", "C14_parse_partial", "C14_parse_partial_from", "C14_parse_indented", "C14_parse_indented_from", "C14_parse_indented_extends", "C14_parse_semicolon", "C14_parse_full_nosemi", "C14_trim_cmd", "C14_anchored", "C14_unbalanced_diagnosed",
           "C14_anchor_sound", "C14_full"]
 TRUSTED = [
     "Coq 8.16.1 kernel (coqc; coqchk in thorough); vm_compute in Example witnesses, in C14_unbalanced_refuted and in the "
@@ -45,10 +45,12 @@ ASSUMES = [
     "is switched on are not described by one equation (C15_sete_rest_of_body covers the rest of that body)",
     "the parser-correctness statement C14_parse_full is PROVED (unbounded, any nesting depth, for all sufficiently large "
     "fuel) for the whole syntax-tree language -- command lines, if with any number of else-if arms and optional else, for, "
-    "while -- in the newline spelling, with any indentation (spaces / tabs before every statement line, arm keyword and closing "
-    "keyword, each line its own) and blank lines (C14_parse_indented, fragI_block; C14_parse_partial, frag_block is the "
-    "unindented case); the `; then` / `; do` spelling is proved only on two computed instances (C14_parse_instances) and "
-    "carried by layer L1b on every run",
+    "while -- with any indentation (spaces / tabs before every statement line, arm keyword and closing keyword), blank lines, "
+    "both head spellings (newline and `; then` / `; do`) and command lines exactly as pest accepts them (C14_parse_indented, "
+    "C14_parse_semicolon, fragI_block); C14_parse_full_nosemi: every wfp_block script without `;` inside a condition / word "
+    "list is parsed to its ideal tree or the computed fuel runs out. Still carried only by L1b / instances: `;` inside a "
+    "condition or word list, adequacy of peg_fuel; outside the AST altogether (L1a only): trailing blanks before a newline, "
+    "CR / CRLF, a last line without final newline",
     "the pair tree carries trim(as_str); the code reads trim_cmd(as_str) (d2f4d24): equal unless the trimmed text ends in "
     "a backslash (C14_trim_cmd); generated scripts hold no backslash",
     "while loops: the model bounds the iterations of one loop by n (OutOfFuel beyond); generated condition sequences end",
